@@ -189,29 +189,25 @@ where
         J: ExactSizeIterator<Item = usize>,
     {
         let indices = indices.into_iter().collect::<Vec<_>>();
-        let min_index = *indices.first().unwrap();
         let leaves_vec = leaves.into_iter().collect::<Vec<_>>();
 
-        let max_index = start + leaves_vec.len();
-
-        let mut set_values = vec![Self::Hasher::default_leaf(); max_index - min_index];
-
-        for i in min_index..start {
-            if !indices.contains(&i) {
-                let value = self.get_leaf(i);
-                set_values[i - min_index] = value;
-            }
+        // Validate the whole request first, so that a rejected update changes nothing
+        if leaves_vec.is_empty() && indices.is_empty() {
+            return Err(Report::msg("no leaves or indices to be removed"));
+        }
+        match start.checked_add(leaves_vec.len()) {
+            Some(end) if end <= self.capacity() => (),
+            _ => return Err(Report::msg("provided hashes do not fit in the tree")),
+        }
+        if indices.iter().any(|&i| i >= self.capacity()) {
+            return Err(Report::msg("index to remove exceeds set size"));
         }
 
-        for i in 0..leaves_vec.len() {
-            set_values[start - min_index + i] = leaves_vec[i];
-        }
-
+        // Reset the removed positions, then write the new leaves (which may overwrite some of them)
         for i in indices {
-            self.cached_leaves_indices[i] = 0;
+            self.delete(i)?;
         }
-
-        self.set_range(start, set_values.into_iter())
+        self.set_range(start, leaves_vec.into_iter())
             .map_err(|e| Report::msg(e.to_string()))
     }
 
